@@ -254,7 +254,9 @@ fn layouts(n: usize, thorough: bool) -> Vec<Layout> {
 /// {1, 3}; the tables around 1024 / 2048 rows get the native morsel sizes of
 /// `ParallelPipeline` (1024 under critical pressure, 65536 normally), forced n and
 /// n+1, and the chunk sizes 2048 / 4096 / 3.
-fn strategy_tags(chain: &[Op], n: usize, workers_max: usize, thorough: bool, reduced_par: bool) -> (Vec<String>, u64) {
+/// `par_mode`: 0 = full parallel product (thorough), 1 = quick product for the structural single operators,
+/// 2 = reduced product, 3 = no parallel runs for this item.
+fn strategy_tags(chain: &[Op], n: usize, workers_max: usize, thorough: bool, par_mode: u8) -> (Vec<String>, u64) {
     let mut tags = vec![];
     let mut skipped = 0u64;
     let has = |f: fn(&Op) -> bool| chain.iter().any(f);
@@ -298,9 +300,12 @@ fn strategy_tags(chain: &[Op], n: usize, workers_max: usize, thorough: bool, red
             }
         }
     }
-    if strat::merge_kind(chain).is_some() && !chain.is_empty() {
-        let (src_chunk, mut morsels): (Vec<(Layout, usize)>, Vec<MorselCfg>) = if small && reduced_par {
-            (vec![(Layout::Auto, 2048), (Layout::Auto, 1), (Layout::Chunks3e, 2048)], vec![MorselCfg::Forced(1), MorselCfg::Forced(7), MorselCfg::Forced(n + 1)])
+    if strat::merge_kind(chain).is_some() && !chain.is_empty() && par_mode != 3 {
+        let (src_chunk, mut morsels): (Vec<(Layout, usize)>, Vec<MorselCfg>) = if small && par_mode == 2 {
+            (vec![(Layout::Auto, 1), (Layout::Chunks3e, 2048)], vec![MorselCfg::Forced(1), MorselCfg::Forced(7), MorselCfg::Forced(n + 1)])
+        } else if small && par_mode == 1 {
+            // (the native morsel sizes are one morsel here, like forced n+1)
+            (vec![(Layout::Auto, 2048), (Layout::Auto, 3), (Layout::Auto, 1), (Layout::Chunks3e, 2048)], vec![MorselCfg::Forced(1), MorselCfg::Forced(7), MorselCfg::Forced(n.max(1)), MorselCfg::Forced(n + 1)])
         } else if small {
             (
                 vec![(Layout::Auto, 2048), (Layout::Auto, 3), (Layout::Auto, 1), (Layout::Chunks(3), 2048), (Layout::Chunks3e, 2048)],
@@ -317,7 +322,7 @@ fn strategy_tags(chain: &[Op], n: usize, workers_max: usize, thorough: bool, red
             (sc, m)
         };
         morsels.dedup();
-        let workers: Vec<usize> = if reduced_par { vec![1, 3] } else if !thorough { vec![1, 2, 4] } else { (1..=workers_max).collect() };
+        let workers: Vec<usize> = if par_mode != 0 { vec![1, 3] } else { (1..=workers_max).collect() };
         for (s, c) in src_chunk {
             for m in &morsels {
                 for &w in &workers {
@@ -431,11 +436,11 @@ struct ItemOut {
     skipped: u64,
 }
 
-fn run_config_item(profile: &str, n: usize, chain: &[Op], workers_max: usize, thorough: bool, reduced_par: bool, scratch: &Path) -> ItemOut {
+fn run_config_item(profile: &str, n: usize, chain: &[Op], workers_max: usize, thorough: bool, par_mode: u8, scratch: &Path) -> ItemOut {
     let input = tables::table(profile, n);
     let mut cache = model::Cache::default();
     let exp_len = cache.eval(chain, &input).len();
-    let (tags, skipped) = strategy_tags(chain, n, workers_max, thorough, reduced_par);
+    let (tags, skipped) = strategy_tags(chain, n, workers_max, thorough, par_mode);
     let mut out = ItemOut { evals: 0, nontrivial: vec![], founds: vec![], sample: None, skipped };
     let mut agg = Agg::default();
     let mut baseline: Option<(String, model::MS)> = None;
@@ -459,7 +464,7 @@ fn run_config_item(profile: &str, n: usize, chain: &[Op], workers_max: usize, th
                 _ => {}
             }
         }
-        if out.sample.is_none() && order == tags.len() - 1 && n == 13 {
+        if out.sample.is_none() && order == tags.len() - 1 && n == 8 {
             out.sample = Some(json!({"case": config_case_json(profile, n, chain, tag), "reference_rows": exp_len, "got_rows": rows.as_ref().map(|r| r.len()), "strategies_run": tags.len()}));
         }
         for x in f {
@@ -541,42 +546,51 @@ fn main() {
 // enumeration of the thread-heavy work (shared by the parent and its shard processes)
 // ---------------------------------------------------------------------------
 
-/// (profile, size, chain, workers_max, reduced parallel product)
-type Item = (String, usize, Vec<Op>, usize, bool);
+/// (profile, size, chain, workers_max, parallel product mode — see `strategy_tags`)
+type Item = (String, usize, Vec<Op>, usize, u8);
 
 const SMALL_SIZES: [usize; 8] = [0, 1, 2, 3, 6, 7, 8, 13];
 const LARGE_SIZES: [usize; 6] = [1023, 1024, 1025, 2047, 2048, 2049];
 
+/// Quick tier: 0, 1, 2 and one size at / above each threshold (morsel 7 forced, morsel 1024 native, chunk 2048).
+const QUICK_SMALL: [usize; 5] = [0, 1, 2, 7, 8];
+const QUICK_LARGE: [usize; 2] = [1025, 2049];
+
 fn cfg_items(thorough: bool) -> Vec<Item> {
-    // sizes: 0,1,2 and one below / at / one above every morsel size (forced 1 and 7, native 1024) and chunk size (3, 2048)
-    let sizes: Vec<usize> = SMALL_SIZES.iter().chain(LARGE_SIZES.iter()).copied().collect();
     let mut items: Vec<Item> = vec![];
     let structural = ["plain", "unique"];
-    for profile in tables::PROFILES {
-        for &n in &sizes {
-            let is_struct = structural.contains(&profile);
-            // value-class profiles do not depend on morsel / chunk boundaries: three sizes and the reduced parallel product in the quick tier
-            if !thorough && !is_struct && ![0usize, 2, 13].contains(&n) {
-                continue;
-            }
-            let wm = if thorough && is_struct { 16 } else { 4 };
-            for c in single_chains() {
-                items.push((profile.to_string(), n, c, wm, !thorough && !is_struct));
+    if thorough {
+        // sizes: 0,1,2 and one below / at / one above every morsel size (forced 1 and 7, native 1024) and chunk size (3, 2048)
+        let sizes: Vec<usize> = SMALL_SIZES.iter().chain(LARGE_SIZES.iter()).copied().collect();
+        for profile in tables::PROFILES {
+            for &n in &sizes {
+                let wm = if structural.contains(&profile) { 16 } else { 4 };
+                for c in single_chains() {
+                    items.push((profile.to_string(), n, c, wm, 0));
+                }
+                if n <= SMALL_MAX || profile == "unique" {
+                    for c in pair_chains() {
+                        items.push((profile.to_string(), n, c, 4, 0));
+                    }
+                }
             }
         }
-    }
-    for profile in tables::PROFILES {
-        for &n in &sizes {
-            let keep = if thorough {
-                n <= SMALL_MAX || profile == "unique"
-            } else {
-                (profile == "plain" && n <= SMALL_MAX) || (profile == "unique" && [8usize, 13, 1025, 2049].contains(&n))
-            };
-            if !keep {
-                continue;
+    } else {
+        for profile in tables::PROFILES {
+            let is_struct = structural.contains(&profile);
+            // value-class profiles do not depend on morsel / chunk boundaries: two sizes and the reduced parallel product
+            let sizes: Vec<usize> = if is_struct { QUICK_SMALL.iter().chain(QUICK_LARGE.iter()).copied().collect() } else { vec![2, 8] };
+            for n in sizes {
+                let mode = if profile == "plain" || n > SMALL_MAX { 1 } else { 2 };
+                for c in single_chains() {
+                    items.push((profile.to_string(), n, c.clone(), 4, mode));
+                }
             }
+        }
+        // two-operator chains: `plain`, small sizes; parallel runs (reduced product) on two of them
+        for n in QUICK_SMALL {
             for c in pair_chains() {
-                items.push((profile.to_string(), n, c, 4, !thorough));
+                items.push(("plain".to_string(), n, c, 4, if n == 2 || n == 8 { 2 } else { 3 }));
             }
         }
     }
@@ -603,8 +617,6 @@ struct SchedPlan {
 }
 fn sched_plan(thorough: bool) -> SchedPlan {
     let chains: Vec<&str> = if thorough { vec!["filter", "sort1", "distinct", "agg", "agg-group", "limit:2", "sort1>limit:2", "filter>agg-group", "project>sort2"] } else { vec!["sort1", "distinct", "agg-group", "sort1>limit:2"] };
-    // (profile, n, morsel): 4 morsels each (the last one short for n = 7)
-    let tables: Vec<(&str, usize, usize)> = if thorough { vec![("plain", 8, 2), ("plain", 7, 2), ("unique", 8, 2)] } else { vec![("plain", 7, 2), ("unique", 8, 2)] };
     let mut units: Vec<BUnit> = vec![];
     let (mut canonical, mut interleavings) = (0u64, 0u64);
     let mut push_canon = |profile: &str, n: usize, morsel: usize, chain: &str, w: usize| {
@@ -615,26 +627,39 @@ fn sched_plan(thorough: bool) -> SchedPlan {
             units.push(BUnit { profile: profile.into(), n, morsel, chain: chain.into(), workers: w, mode: "canonical".into(), schedules: scheds });
         }
     };
-    for (profile, n, morsel) in &tables {
-        for chain in &chains {
-            for w in 1..=3usize {
-                push_canon(profile, *n, *morsel, chain, w);
+    let mut inter_sizes = vec![];
+    if thorough {
+        // (profile, n, morsel): 4 morsels each (the last one short for n = 7)
+        for (profile, n, morsel) in [("plain", 8usize, 2usize), ("plain", 7, 2), ("unique", 8, 2)] {
+            for chain in &chains {
+                for w in 1..=3usize {
+                    push_canon(profile, n, morsel, chain, w);
+                }
             }
         }
-    }
-    if thorough {
-        // 4 workers x 6 morsels (the last one short): 4^6 assignments x 4! completion orders per chain
-        for chain in ["agg-group"] {
-            push_canon("unique", 11, 2, chain, 4);
+        // 4 workers x 6 morsels (the last one short): 4^6 assignments x 4! completion orders
+        push_canon("unique", 11, 2, "agg-group", 4);
+    } else {
+        // every assignment x completion order: 2 workers x 3 morsels (last one short) and 3 workers x 2 morsels, unique keys
+        for chain in &chains {
+            push_canon("unique", 5, 2, chain, 2);
+            push_canon("unique", 4, 2, chain, 3);
         }
     }
     // all interleavings of the gate protocol for the smallest shapes
-    let inter_shapes: Vec<(usize, usize)> = if thorough { vec![(2, 2), (2, 3), (2, 4), (3, 2), (3, 3), (3, 4)] } else { vec![(2, 2), (2, 3), (3, 2)] };
-    let mut inter_sizes = vec![];
+    // (quick: 3 workers x 2 morsels only in the canonical form above — its 810 interleavings are left to the thorough tier)
+    let inter_shapes: Vec<(usize, usize)> = if thorough { vec![(2, 2), (2, 3), (2, 4), (3, 2), (3, 3), (3, 4)] } else { vec![(2, 3)] };
     for (w, m) in &inter_shapes {
         let all = sched::all_interleavings(*w, *m);
         inter_sizes.push(json!({"workers": w, "morsels": m, "release_sequences": all.len()}));
-        for chain in chains.iter().filter(|c| !thorough || (all.len() > 5000 && ["sort1", "agg-group"].contains(*c)) || (all.len() <= 5000 && ["sort1", "distinct", "agg-group", "sort1>limit:2"].contains(*c))) {
+        let pick: Vec<&str> = if thorough {
+            if all.len() > 5000 { vec!["sort1", "agg-group"] } else { vec!["sort1", "distinct", "agg-group", "sort1>limit:2"] }
+        } else if all.len() > 100 {
+            vec!["agg-group"]
+        } else {
+            chains.clone()
+        };
+        for chain in pick {
             for block in all.chunks(32) {
                 interleavings += block.len() as u64;
                 units.push(BUnit { profile: "plain".into(), n: 2 * m, morsel: 2, chain: chain.to_string(), workers: *w, mode: "interleavings".into(), schedules: block.to_vec() });
@@ -688,7 +713,7 @@ impl ShardOut {
 
 fn run_cfg_shard(items: &[Item], shard: usize, nshards: usize, jobs: usize, thorough: bool, scratch: &Path) -> ShardOut {
     let mine: Vec<&Item> = items.iter().enumerate().filter(|(i, _)| i % nshards == shard).map(|(_, x)| x).collect();
-    let outs = vcore::par_map(&mine, jobs, |_, (p, n, c, wm, red)| run_config_item(p, *n, c, *wm, thorough, *red, scratch));
+    let outs = vcore::par_map(&mine, jobs, |_, (p, n, c, wm, mode)| run_config_item(p, *n, c, *wm, thorough, *mode, scratch));
     let mut so = ShardOut::default();
     let mut agg = Agg::default();
     for o in outs {
@@ -839,7 +864,7 @@ fn run(args: vcore::Args) -> i32 {
         let (profile, n, chain) = (p[0], p[1].parse::<usize>().unwrap(), model::parse_chain(&p[2..].join(":")).unwrap());
         let input = tables::table(profile, n);
         let mut cache = model::Cache::default();
-        let (tags, _) = strategy_tags(&chain, n, tier.pick(4, 16), thorough, false);
+        let (tags, _) = strategy_tags(&chain, n, tier.pick(4, 16), thorough, if thorough { 0 } else { 1 });
         for t in tags {
             let t0 = std::time::Instant::now();
             let (f, _) = run_config_case(profile, n, &input, &mut cache, &chain, &t, 0, &scratch);
@@ -953,7 +978,7 @@ fn run(args: vcore::Args) -> i32 {
     let (cfg, sch) = if in_process {
         (run_cfg_shard(&items, 0, 1, cores, thorough, &scratch), run_sched_shard(&plan, 0, 1, cores))
     } else {
-        run_sharded(tier, cores, &parts_env, &scratch)
+        run_sharded(tier, if thorough { cores } else { cores.min(8) }, &parts_env, &scratch)
     };
     let t_threads = t0.elapsed().as_secs_f64();
     if verbose {
@@ -976,7 +1001,7 @@ fn run(args: vcore::Args) -> i32 {
     if let Some(c) = ext.iter().find(|c| c.n == 33 && c.run_len == 7 && c.mem_last) {
         rep.sample(c.json());
     }
-    if let Some(c) = parts.iter().find(|c| c.n == 40 && c.policy == "lru" && c.partitions == 2) {
+    if let Some(c) = parts.iter().find(|c| c.n >= 30 && c.policy == "lru" && c.partitions == 2) {
         rep.sample(c.json());
     }
     rep.sample(mergex::MCase { helper: "sorted-runs".into(), alphabet: "int".into(), keys: 2, syms: vec![0, 1, 1, 3], assign: vec![0, 1, 2, 1] }.json());
@@ -992,18 +1017,18 @@ fn run(args: vcore::Args) -> i32 {
     rep.set(
         "bounds",
         json!({
-            "profiles": tables::PROFILES, "sizes_small": SMALL_SIZES, "sizes_large": LARGE_SIZES,
+            "profiles": tables::PROFILES, "sizes_small": if thorough { SMALL_SIZES.to_vec() } else { QUICK_SMALL.to_vec() }, "sizes_large": if thorough { LARGE_SIZES.to_vec() } else { QUICK_LARGE.to_vec() }, "sizes_value_class_profiles": if thorough { "all" } else { "2, 8" },
             "single_chains": single_chains().iter().map(|c| model::chain_name(c)).collect::<Vec<_>>(),
             "pair_chains": pair_chains().iter().map(|c| model::chain_name(c)).collect::<Vec<_>>(), "config_items": items.len(), "config_tables": cfg_tables.len(),
-            "workers": if thorough { "1..16 for single operators on plain/unique, 1..4 elsewhere" } else { "{1,2,4} for single operators on plain/unique, {1,3} elsewhere" },
+            "workers": if thorough { "1..16 for single operators on plain/unique, 1..4 elsewhere" } else { "{1,3}" },
             "layouts_small": layouts(1, thorough).iter().map(|l| l.tag()).collect::<Vec<_>>(), "layouts_large": layouts(2048, thorough).iter().map(|l| l.tag()).collect::<Vec<_>>(),
             "spill_thresholds_small": [1, 2, 7, 1000000], "spill_thresholds_large": [1, 64, 1000, 1000000],
             "morsel_sizes_small": ["critical(1024)", "forced 1", "forced 7", "forced n", "forced n+1"], "morsel_sizes_large": ["critical(1024)", "normal(65536)", "forced n", "forced n+1", "thorough: forced 7"], "parallel_chunk_sizes": [1, 3, 2048],
             "max_run_files_per_sort": 200, "spill_configs_skipped_by_run_bound": skipped,
-            "merge_helper_max_len": tier.pick(json!({"sorted": 4, "accumulator": 4, "distinct": 4}), json!({"sorted": 6, "accumulator": 6, "distinct": 5})), "merge_runs": 3,
+            "merge_helper_max_len": tier.pick(json!({"sorted": 3, "accumulator": 3, "distinct": 3}), json!({"sorted": 6, "accumulator": 6, "distinct": 5})), "merge_runs": 3,
             "morsel_cover": tier.pick("total 0..40 x morsel size 0..41", "total 0..80 x morsel size 0..81"), "scheduler_api": tier.pick("workers 1..3 x morsels 0..4 x every placement (global/local queue) x every get_work order x NUMA on/off", "workers 1..4 x morsels 0..4 x ..."),
             "schedule_chains": plan.chains,
-            "schedule_shapes_canonical": if thorough { "workers 1..3 x 4 morsels (9 chains x 3 tables); 4 workers x 6 morsels (agg-group on unique/11)" } else { "workers 1..3 x 4 morsels" },
+            "schedule_shapes_canonical": if thorough { "workers 1..3 x 4 morsels (9 chains x 3 tables); 4 workers x 6 morsels (agg-group on unique/11)" } else { "2 workers x 3 morsels, 3 workers x 2 morsels (4 chains)" },
             "schedule_interleavings": plan.inter_sizes,
         }),
     );
